@@ -242,6 +242,94 @@ pub fn open_funded_perm(w: &mut World, spec: &ChanSpec, fs: &FundSpec, perm: boo
     Funded { ci, funding_tx, wallet_inputs, content0: c0 }
 }
 
+/// Batch open: ONE transaction (wallet inputs, one funding output per channel in the order of
+/// `specs`, then the change output) funds all the channels, which are outbound; it is checked and
+/// signed once, as a node does when it opens several channels at a time.
+pub fn open_funded_batch(w: &mut World, specs: &[ChanSpec], fs: &FundSpec) -> Vec<Funded> {
+    assert!(specs.iter().all(|s| s.outbound), "batch funding: outbound channels only");
+    let cis: Vec<usize> = specs
+        .iter()
+        .map(|spec| match w.new_stub(spec) {
+            Out::Ok(i) => i,
+            o => panic!("new_stub failed: {}", o.err_msg()),
+        })
+        .collect();
+    let n_in = if fs.two_inputs { 2 } else { 1 };
+    let fee = 1_000u64;
+    let change = 50_000u64;
+    let total_in = specs.iter().map(|s| s.value_sat).sum::<u64>() + change + fee;
+    let mut ipaths: Vec<DerivationPath> = vec![];
+    let mut prev_outs: Vec<TxOut> = vec![];
+    let mut inputs: Vec<TxIn> = vec![];
+    let mut wallet_inputs = vec![];
+    for i in 0..n_in {
+        let path: DerivationPath = vec![ChildNumber::from_normal_idx(10 + i as u32).unwrap()].into();
+        let spk = w.node.get_native_address(&path).expect("address").script_pubkey();
+        let val = if n_in == 1 { total_in } else if i == 0 { total_in / 2 } else { total_in - total_in / 2 };
+        let op = ext_outpoint("wallet-batch", specs[0].dbid, i as u64);
+        wallet_inputs.push(op);
+        inputs.push(txin(op, Sequence::MAX));
+        prev_outs.push(TxOut { value: Amount::from_sat(val), script_pubkey: spk });
+        ipaths.push(path);
+    }
+    let change_path: DerivationPath = vec![ChildNumber::from_normal_idx(20).unwrap()].into();
+    let change_spk = w.node.get_native_address(&change_path).expect("address").script_pubkey();
+    let c_out = TxOut { value: Amount::from_sat(change), script_pubkey: change_spk };
+    let mut outputs: Vec<TxOut> = vec![];
+    let mut opaths: Vec<DerivationPath> = vec![];
+    if !fs.funding_first {
+        outputs.push(c_out.clone());
+        opaths.push(change_path.clone());
+    }
+    let first_vout = outputs.len() as u32;
+    for (spec, ci) in specs.iter().zip(cis.iter()) {
+        outputs.push(TxOut { value: Amount::from_sat(spec.value_sat), script_pubkey: w.chans[*ci].funding_redeemscript().to_p2wsh() });
+        opaths.push(DerivationPath::master());
+    }
+    if fs.funding_first {
+        outputs.push(c_out);
+        opaths.push(change_path.clone());
+    }
+    let funding_tx = Transaction { version: Version::TWO, lock_time: LockTime::ZERO, input: inputs, output: outputs };
+    let txid = funding_tx.compute_txid();
+    let mut contents = vec![];
+    for (k, (spec, ci)) in specs.iter().zip(cis.iter()).enumerate() {
+        let ci = *ci;
+        w.chans[ci].setup.funding_outpoint = OutPoint { txid, vout: first_vout + k as u32 };
+        match w.setup_chan(ci) {
+            Out::Ok(()) => {}
+            o => panic!("setup_chan failed: {}", o.err_msg()),
+        }
+        let c0 = mk_content(spec.anchors, spec.outbound, spec.value_sat, 1000, 0, vec![], vec![]);
+        let signed = w.chans[ci].cp_sign_holder(&w.secp, 0, &c0, SigKind::Valid);
+        must(w.with_chan(ci, |ch| ch.validate_holder_commitment_tx_phase2(0, c0.feerate, c0.to_holder, c0.to_cp, vec![], vec![], &signed.commit_sig, &signed.htlc_sigs)), "validate holder 0");
+        must(w.with_chan(ci, |ch| ch.activate_initial_commitment().map(|_| ())), "activate");
+        contents.push(c0);
+    }
+    {
+        let node = w.node.clone();
+        let tx = funding_tx.clone();
+        let flags = vec![true; n_in];
+        let ucks = vec![None; n_in];
+        let r = call(|| {
+            node.check_onchain_tx(&tx, &flags, &prev_outs, &ucks, &opaths).map_err(|e| lightning_signer::util::status::Status::from(e))?;
+            node.unchecked_sign_onchain_tx(&tx, &ipaths, &prev_outs, ucks.clone()).map(|_| ())
+        });
+        must(r, "sign batch funding tx");
+    }
+    let mut out = vec![];
+    for (ci, c0) in cis.iter().zip(contents.into_iter()) {
+        let ci = *ci;
+        let point0 = w.chans[ci].cp.point(&w.secp, 0);
+        must(
+            w.with_chan(ci, |ch| ch.sign_counterparty_commitment_tx_phase2(&point0, 0, c0.feerate, c0.to_holder, c0.to_cp, vec![], vec![]).map(|_| ())),
+            "sign counterparty 0",
+        );
+        out.push(Funded { ci, funding_tx: funding_tx.clone(), wallet_inputs: wallet_inputs.clone(), content0: c0 });
+    }
+    out
+}
+
 /// A ready channel (no commitment validated yet) whose funding transaction is a real one
 /// (one wallet input, funding output at index 0) and is confirmed in a block connected to the
 /// node's tracker: the state in which an on-chain validator lets commitments advance.
